@@ -1,6 +1,6 @@
 (* OCaml driver for the extracted C14 model: same op stream as `persist_harness ops`
    (harness/persist_harness.cpp); prints one line per DUMP / DUMPF / PRB op.
-   usage: persist_driver <g> <e> <k> <t>   (the Variant booleans decided by the DETECT op) *)
+   usage: persist_driver <g> <e> <k> <t> <l>   (the Variant booleans decided by the DETECT op) *)
 open Persist_model
 
 (* ---- numbers: 64-bit values travel as unsigned decimal strings ---- *)
@@ -51,8 +51,32 @@ let str_entry (e : entry) =
 
 let sorted l = List.sort (fun (a, _) (b, _) -> compare (int64_of_n a) (int64_of_n b)) l
 
+(* parameters of a `go ...` line (the text after the second '|') *)
+let go_params (txt : string) : goParams =
+  let t = Array.of_list (tokens txt) in
+  let n = Array.length t in
+  let num key = let r = ref 0 in Array.iteri (fun i x -> if x = key && i + 1 < n then r := int_of_string t.(i + 1)) t; !r in
+  let has key = Array.exists (fun x -> x = key) t in
+  let keywords = ["searchmoves"; "ponder"; "wtime"; "btime"; "winc"; "binc"; "movestogo"; "depth"; "nodes"; "mate"; "movetime"; "infinite"] in
+  let sm = ref [] and ins = ref false in
+  Array.iter (fun x -> if x = "searchmoves" then ins := true
+                       else if List.mem x keywords then ins := false
+                       else if !ins then sm := n_of_int (Hashtbl.hash x land 0xffff) :: !sm) t;
+  { g_depth = z_of_int (num "depth"); g_mate = z_of_int (num "mate"); g_nodes = z_of_int (num "nodes");
+    g_movetime = z_of_int (num "movetime"); g_clock = None; g_infinite = has "infinite"; g_ponder = has "ponder";
+    g_searchmoves = List.rev !sm }
+
+let rec list_len = function [] -> 0 | _ :: r -> 1 + list_len r
+
+let limits (s : state) : string =
+  match s.st_limits with
+  | None -> " lim=?"
+  | Some l -> Printf.sprintf " lim=%s,%s,%s,%s,%s,%d" (str_z l.l_minTime) (str_z l.l_maxTime) (str_z l.l_earlyStop)
+                (str_z l.l_maxDepth) (str_z l.l_maxNodes) (list_len l.l_searchMoves)
+
 let frame (s : state) : string =
   let t = s.st_tt and o = s.st_opts in
+  (fun x -> x ^ limits s) @@
   Printf.sprintf "gen=%s tsize=%s used=%s tb=%s nuc=%s ch=%s chash=%s seed0=%s opts=%s,%s,%s,%s,%s,%s,%s,%s"
     (str_n t.generation) (str_n t.tableSize) (str_n t.usedSize)
     (match t.tbResident with None -> "0" | Some _ -> "1") (str_z t.notUsedCnt) (b01 s.st_clearHistory)
@@ -75,7 +99,7 @@ let content (s : state) : string =
 let () =
   let flag i = Array.length Sys.argv > i && Sys.argv.(i) = "1" in
   let v = { clear_resets_generation = flag 1; clear_clears_evalcache = flag 2; evalkey_has_contempt = flag 3;
-            tbabort_drops_tb = flag 4 } in
+            tbabort_drops_tb = flag 4; go_resets_limits = flag 5 } in
   let st = ref fresh in
   let do_cmd c = st := step v ex_oracle !st c in
   let write w = st := apply_write Z0 !st w in
@@ -91,10 +115,11 @@ let () =
        | ["UCI"; "setoption"; "name"; name; "value"; value] -> do_cmd (SetOption (opt_of_name name, value_of value))
        | ["UCI"; "ucinewgame"] -> do_cmd (UciNewGame (n_of_int 1))
        | "GO" :: _mode :: _wait :: white :: limited :: infinite :: tbkind :: maxt :: _ ->
+           let gotxt = let i = String.rindex line '|' in String.sub line (i + 1) (String.length line - i - 1) in
            let c = { sc_text = n_of_int 0; sc_white = white = "1"; sc_limited = limited = "1";
                      sc_infinite = infinite = "1";
                      sc_tbkind = (if tbkind = "-1" then None else Some (n_of_string tbkind));
-                     sc_maxTime = z_of_string maxt } in
+                     sc_maxTime = z_of_string maxt; sc_go = go_params gotxt } in
            do_cmd (Search (c, N0, true, Z0))
        | ["NEXTGEN"] -> set_tt (tt_nextGeneration !st.st_tt)
        | ["RESIZE"; n] -> set_tt (tt_resize v.clear_resets_generation !st.st_tt (n_of_string n))
